@@ -107,10 +107,11 @@ def assignMasked {α : Type} : List α → List Bool → List α → List α
   | [], _, _ => []
 
 /-- `self._observations[sel] = observations; self._observation_mask[sel] = True`
-    numpy: a boolean index of the wrong length is an `IndexError`; a value array that neither has one
-    entry per selected row nor exactly one entry (broadcast) is a `ValueError`. -/
+    numpy: a boolean index of the wrong length is an `IndexError` -- except the zero-length one, which numpy
+    accepts and treats as "select nothing"; a value array that neither has one entry per selected row nor
+    exactly one entry (broadcast) is a `ValueError`. -/
 def setObserved (s : Screen) (sel : List Bool) (vals : List Nat) : Except Err Screen :=
-  if sel.length != s.size then .error .indexError
+  if sel.length != s.size && !sel.isEmpty then .error .indexError
   else
     let k := sel.count true
     let vals? : Option (List Nat) :=
@@ -119,7 +120,8 @@ def setObserved (s : Screen) (sel : List Bool) (vals : List Nat) : Except Err Sc
       else none
     match vals? with
     | none => .error .valueError
-    | some vs => .ok { s with obs := assignMasked s.obs sel vs, mask := List.zipWith (· || ·) s.mask sel }
+    | some vs => .ok { s with obs := assignMasked s.obs sel vs,
+                              mask := if sel.isEmpty then s.mask else List.zipWith (· || ·) s.mask sel }
 
 /-! ### plate counters of `extract_screen_metadata` -/
 
